@@ -15,6 +15,9 @@ type ScriptConn struct {
 	Chunks []int // successive maximum read sizes; when exhausted the last one repeats (0 = unlimited)
 	CutAt  int   // reader fails once this many bytes were returned (-1: at end of input, with io.EOF)
 	CutErr error // error at the cut (nil = io.EOF)
+	// ErrWithData: the bytes just before the cut are returned together with the
+	// error (n > 0, err != nil), as io.Reader allows.
+	ErrWithData bool
 	// NoEOF: at the natural end of input return ErrWouldBlock instead of EOF
 	// (the harness feeds more later).
 	NoEOF bool
@@ -78,6 +81,12 @@ func (c *ScriptConn) Read(p []byte) (int, error) {
 	c.pos += n
 	if n == 0 {
 		c.ZeroReads++
+	}
+	if c.ErrWithData && n > 0 && c.CutAt >= 0 && c.pos >= c.CutAt {
+		if c.CutErr != nil {
+			return n, c.CutErr
+		}
+		return n, io.EOF
 	}
 	return n, nil
 }
